@@ -88,6 +88,13 @@ func c02MakeLog(name string, chunks [][]string, hours []int, gaps []int) c02Log 
 				e.Type, e.Session, e.Data = robust.DeleteSession, robust.Id{Id: sess[line[1:]]}, "gone"
 			default:
 				who, data, _ := strings.Cut(line, ": ")
+				if strings.HasPrefix(who, "!") {
+					// a message which crashed the server before and was marked so it is skipped
+					who = who[1:]
+					e.Type = robust.MessageOfDeath
+					e.Session, e.Data, e.ClientMessageId, e.RemoteAddr = robust.Id{Id: sess[who]}, data, idx*3+1, "10.0.0."+strconv.Itoa(int(sess[who]))
+					break
+				}
 				e.Type, e.Session, e.Data, e.ClientMessageId, e.RemoteAddr = robust.IRCFromClient, robust.Id{Id: sess[who]}, data, idx*3+1, "10.0.0."+strconv.Itoa(int(sess[who]))
 			}
 			ch.Entries = append(ch.Entries, e)
@@ -117,6 +124,11 @@ func c02Logs(thorough bool) []c02Log {
 		// the session expiration is raised by a second, newer config entry: folding the old config entry must
 		// not bring the old (shorter) horizon back
 		c02MakeLog("two-configs", [][]string{setup, {"cfg60", "A: JOIN #c"}, talk}, []int{0, 1, 2}, []int{2, 0, 1}),
+		// exactly one entry is too new to be folded and it is the last one
+		c02MakeLog("one-new-last", [][]string{setup, join, {"B: PRIVMSG #c :hi"}}, []int{0, 1, 100}, []int{2, 0, 0}),
+		// a marked message of death is the last message of its session in what gets folded: its
+		// duplicate-detection marker has to survive the fold
+		c02MakeLog("death", [][]string{setup, {"A: JOIN #c", "+B", "B: NICK b", "!A: PRIVMSG #c :boom"}, {"B: USER b 0 * :B", "B: JOIN #c"}}, []int{0, 1, 2}, []int{2, 0, 0}),
 		// all new: nothing may ever be folded
 		c02MakeLog("all-new", [][]string{setup, join}, []int{100, 101}, []int{2, 0}),
 	}
@@ -139,11 +151,13 @@ func c02Msg(e ircserver.VEntry) ircserver.VEntry {
 	return e
 }
 
-func c02Encode(e ircserver.VEntry) []byte {
+func c02Encode(e ircserver.VEntry) []byte { return c02EncodeAs(e, *useProtobuf) }
+
+func c02EncodeAs(e ircserver.VEntry, asProto bool) []byte {
 	me := c02Msg(e)
 	m := me.Msg()
 	m.Id = robust.Id{} // the API leaves the id to the raft index
-	if *useProtobuf {
+	if asProto {
 		b, err := proto.Marshal(m.ProtoMessage())
 		if err != nil {
 			panic(err)
@@ -160,19 +174,19 @@ func c02Encode(e ircserver.VEntry) []byte {
 // ---- world ---------------------------------------------------------------------------
 
 type c02World struct {
-	dir     string
-	log     c02Log
-	fsm     *FSM
-	fss     *raft.FileSnapshotStore
-	applied []ircserver.VEntry // every command entry applied so far, in order (the "raft log")
-	nextChunk int
-	pending   *robustSnapshot
-	pendingIx uint64
-	persisted []uint64 // raft indexes of successfully persisted snapshots
-	twin      *ircserver.VInst
-	twinOut   map[uint64][]*robust.Message
+	dir              string
+	log              c02Log
+	fsm              *FSM
+	fss              *raft.FileSnapshotStore
+	applied          []ircserver.VEntry // every command entry applied so far, in order (the "raft log")
+	nextChunk        int
+	pending          *robustSnapshot
+	pendingIx        uint64
+	persisted        []uint64 // raft indexes of successfully persisted snapshots
+	twin             *ircserver.VInst
+	twinOut          map[uint64][]*robust.Message
 	maxCompactionEnd time.Time
-	snapErr   string
+	snapErr          string
 }
 
 func c02Open(dir string, fresh bool) (*FSM, error) {
@@ -429,7 +443,9 @@ func (w *c02World) check(after string) [][2]string {
 			var l raft.Log
 			if err := w.fsm.ircstore.GetLog(e.Id, &l); err != nil {
 				add("retained entry cannot be read back", fmt.Sprintf("index %d: %v", e.Id, err))
-			} else if string(l.Data) != string(c02Encode(e)) || l.Index != e.Id {
+			} else if (string(l.Data) != string(c02EncodeAs(e, true)) && string(l.Data) != string(c02EncodeAs(e, false))) || l.Index != e.Id {
+				// (either encoding of the same message: during a rolling upgrade a node stores entries it got from
+				// a snapshot of a node with the other encoding verbatim)
 				add("retained entry differs from what was applied", fmt.Sprintf("index %d", e.Id))
 			}
 			continue
